@@ -47,7 +47,9 @@ FINISH = dict(
          "two requests of one attempt, runs mixing several recoverable types, recoverable runs ended by another "
          "kind of answer (other problem, untyped, non-JSON, cut connection, body cut short, bad Replay-Nonce), "
          "errors while polling objects that need 15..20 polls, all poll phases long at once, two authorizations "
-         "(budgets per object; plans on the second authorization), empty / non-ASCII Replay-Nonce values.  "
+         "(budgets per object; plans on the second authorization), empty / non-ASCII Replay-Nonce values, "
+         "Retry-After (absent, 0, 1, 120, an HTTP-date, changing values) on the answers to polls of objects that never / "
+         "late reach the awaited status and on 429 / 503 answers (the run is ended at a cap of poll requests no bounded polling reaches).  "
          "non-trivial = at least one faulty answer or one poll served.  Text -> object layer (py/ext/acmeobj.py): valid Let's-Encrypt-shaped "
          "directory / account / order / authorization / challenge / problem / identifier texts from a schema and "
          "their mutations (member deleted / null / every other JSON type / duplicated / renamed, enum words in "
@@ -275,8 +277,13 @@ def run_one(scn, helper, base):
     ca = CA(helper, rules=copy.deepcopy(scn["rules"]), opts=dict(scn.get("ca_opts") or {}))
     ca.start()
     try:
+        # `poll_cap` (plans whose polls could go on for ever): the run also ends when that many POSTs on authorization
+        # / order URLs have reached the CA — more than any bounded polling of the plan makes; judged, not timed out
+        cap = scn.get("poll_cap")
+        stop = (lambda ca_, log_: sum(1 for e in ca_.log if e["kind"] == "req" and e["method"] == "POST"
+                                      and e["rk"] in ("authz", "order")) >= cap) if cap else None
         obs = flow.run_scenario(root, scn.get("certs") or CERTS, helper=helper, ca=ca, n_postop=1, timeout=60,
-                                with_file_hooks=False, settle=0.0)
+                                with_file_hooks=False, settle=0.0, stop=stop)
     finally:
         ca.stop()
     pos = [r for r in obs["hooks"] if r.get("kind") == "hook"
@@ -291,9 +298,9 @@ def run_one(scn, helper, base):
                          "hdr": {k: hdr.get(k) for k in ("nonce", "kid", "jwk", "alg", "url")}})
         elif e["kind"] == "ans":
             slim.append({"kind": "ans", "seq": e["seq"], "for": e["for"], "status": e.get("status"),
-                         "nonce": e.get("nonce"), "drop": e.get("drop", False),
+                         "nonce": e.get("nonce"), "drop": e.get("drop", False), "retry_after": e.get("retry_after"),
                          "cut": e.get("cut_after") is not None and e["cut_after"] < (e.get("len") or 0)})
-    run = {"ca": slim, "bodies": dict(ca.bodies), "completed": obs["completed"], "rc": obs["rc"],
+    run = {"ca": slim, "bodies": dict(ca.bodies), "completed": obs["completed"], "rc": obs["rc"], "capped": obs.get("stopped", False),
            "postop": ({"t": pos[0]["t"], "args": flow.hook_args(pos[0])} if pos else None),
            "stderr_tail": obs["stderr"][-1500:]}
     shutil.rmtree(root, ignore_errors=True)
@@ -531,7 +538,9 @@ def evaluate(ctx, scns, runs, verbose=False):
                                 "success" if a["success"] else "failure"))
         robj = {"scenario": scn, "attempt_success": a["success"], "requests": [brief(g) for g in groups],
                 "stderr_tail": run.get("stderr_tail", "")[-600:]}
-        if not run["completed"] or a["success"] is None:
+        if run.get("capped"):
+            ctx.count("poll-cap-reached")      # the polls below are judged (more than 20 of one object: pollHolds fails)
+        elif not run["completed"] or a["success"] is None:
             ctx.broke("harness", "no post-operation record within the time limit (daemon rc %s)" % run.get("rc"), robj)
         for g in groups:
             ctx.traces += 1
@@ -543,6 +552,8 @@ def evaluate(ctx, scns, runs, verbose=False):
                 ctx.count("answer:" + tx["c"]["cls"])
             v, m = answers[g["qj"]], answers[g["qm"]]
             where = "%s (plan: %s %s x%d at %s)" % (g["rk"], scn["class"], scn["label"], scn["L"], scn["pos"])
+            if run.get("capped") and g is groups[-1]:
+                continue        # cut short by the harness itself (poll cap): its outcome was never observed
             if not v.get("holds"):
                 failed = [k for k in ("countOk", "retriesJustified", "successOnly2xx", "retriedToTheEnd",
                                       "newestNonce", "sameContent") if v.get(k) is False]
@@ -594,6 +605,10 @@ def evaluate(ctx, scns, runs, verbose=False):
             if diffs:
                 ctx.disagreements += 1
                 ctx.broke("correspondence", "%s: %s" % (where, "; ".join(diffs)), dict(robj, model=m))
+        if run.get("capped") and len(ctx.violations) + len(ctx.broken) == n0:
+            ctx.broke("harness", "the run was ended at its cap of %s poll requests, yet no judged request failed" % scn.get("poll_cap"), robj)
+        if scn["class"].startswith("retry-after"):
+            ctx.count("retry-after:answers-carrying-the-header", sum(1 for e in run["ca"] if e["kind"] == "ans" and e.get("retry_after") is not None))
         # the plan must have been exercised
         if scn["pos"]:
             kind = {"authzPoll": "authz", "orderPoll": "order"}.get(scn["pos"], scn["pos"])
